@@ -235,7 +235,7 @@ def low_prec(values, origin=None):
     """(mean/median tolerance, variance/bounds tolerance) — numpy reduces float32 / float16 chains in that precision"""
     dts = {str(np.asarray(v).dtype) for v in values if v is not None} | ({origin} if origin else set())
     if "float16" in dts:
-        return 4e-3, 3e-2
+        return 1e-2, 6e-2      # float16: eps = 2^-10; numpy reduces in float16 (hardening pass: 4e-3 / 3e-2 used up to 9 % of the tolerance)
     if "float32" in dts:
         return 2e-6, 2e-5
     return None
@@ -247,7 +247,7 @@ def narrow_int(dt):
 
 
 def state_tol(dtname):
-    return {"float32": 2e-6, "float16": 4e-3}.get(dtname, 1e-12)
+    return {"float32": 2e-6, "float16": 1e-2}.get(dtname, 1e-12)
 
 
 LAYOUT_OF = {}    # id(number array) -> memory layout / flags / class of the array the implementation stores (G7)
